@@ -1,7 +1,234 @@
 import Aqv.Base.Proto
-open Aqv Aqv.Proto
+import Aqv.Model.Tx
+open Aqv Aqv.Proto Aqv.Tx
 
-/-- stub driver for C06 (answers every case line with "bad-op"); replaced when the property is built. -/
-def handle (l : String) : String := let _ := l; "bad-op\tagree"
+/-!
+  Model driver for C06. Case kinds (see go/harness/cmd/c06/main.go):
+    ig  <nz> <z> <create> <homestead>
+    gp  a<n>,s<n>,...
+    msg <hs> <byz> <cb> <gp> <from> <c|t> <nonce> <check> <price> <gas> <value> <nz> <z> <pre> <evm>
+    blk <hs> <byz> <cb> <gasLimit> <pre> <tx>...        tx = from:c|t:nonce:price:gas:value:nz:z:evm
+  `pre`/`post` = b0,n0;b1,n1;b2,n2;b3,n3 (tracked accounts: three senders and the dedicated coinbase).
+  `evm` = na | skip | coll | f~gasLeft~(n|i|r|o)~refundCounter~b0,n0;...   — what the real EVM left behind at depth 0.
+-/
+
+/-- the EVM oracle of one transaction. -/
+inductive Oracle
+  | na | skip | coll
+  | fired (gasLeft : Nat) (err : Option VmErr) (refund : Nat) (obs : List (Nat × Nat))
+
+def nat? (s : String) : Option Nat := s.toNat?
+
+def parsePairs (s : String) : Option (List (Nat × Nat)) :=
+  (s.splitOn ";").mapM (fun p => match p.splitOn "," with
+    | [a, b] => do let x ← nat? a; let y ← nat? b; pure (x, y)
+    | _ => none)
+
+def parseOracle (s : String) : Option Oracle :=
+  match s.splitOn "~" with
+  | ["na"] => some .na
+  | ["skip"] => some .skip
+  | ["coll"] => some .coll
+  | ["f", gl, e, rf, obs] => do
+    let gl ← nat? gl
+    let rf ← nat? rf
+    let obs ← parsePairs obs
+    let e ← (match e with
+      | "n" => some none | "i" => some (some VmErr.insufficientBalance) | "r" => some (some VmErr.reverted)
+      | "o" => some (some VmErr.other) | _ => none)
+    pure (.fired gl e rf obs)
+  | _ => none
+
+/-- the world of the driver: tracked balances/nonces; `rest` = the refund counter. -/
+abbrev W := World Nat
+
+def mkWorld (pairs : List (Nat × Nat)) : W :=
+  let idx := List.range pairs.length
+  { bal := (idx.zip pairs).map (fun (i, p) => (i, p.1)), nonce := (idx.zip pairs).map (fun (i, p) => (i, p.2)), rest := 0 }
+
+def setAll (m : AMap) (vals : List Nat) : AMap :=
+  ((List.range vals.length).zip vals).foldl (fun acc (i, v) => update acc i v) m
+
+def oracleRun (orc : Msg → Oracle) (m : Msg) (g : Nat) (w : W) : EvmOut Nat :=
+  if lookup w.bal m.sender < m.value then { world := w, gasLeft := g, err := some .insufficientBalance }
+  else match orc m with
+    | .na | .skip => { world := w, gasLeft := g, err := none }
+    | .coll => { world := setNonce w m.sender (nonceInc (lookup w.nonce m.sender)), gasLeft := 0, err := some .other }
+    | .fired gl e rf obs =>
+      { world := { bal := setAll w.bal (obs.map (·.1)), nonce := setAll w.nonce (obs.map (·.2)), rest := rf }, gasLeft := gl, err := e }
+
+def mkEnv (orc : Msg → Oracle) (cb : Nat) (hs byz : Bool) : Env Nat :=
+  { run := oracleRun orc, refund := fun w => w.rest, fin := fun w => { w with rest := 0 }, coinbase := cb, homestead := hs, byzantium := byz }
+
+def mkData (nz z : Nat) : List UInt8 := List.replicate nz 1 ++ List.replicate z 0
+
+def showTracked (w : W) (n : Nat) : String :=
+  ";".intercalate ((List.range n).map (fun i => toString (lookup w.bal i) ++ "," ++ toString (lookup w.nonce i)))
+
+def errName : TxErr → String
+  | .nonceTooHigh => "nonce-high" | .nonceTooLow => "nonce-low" | .insufficientFundsForGas => "funds-for-gas"
+  | .gasLimitReached => "gas-limit-reached" | .intrinsicOverflow => "oog" | .belowIntrinsic => "oog"
+  | .insufficientBalance => "insufficient-balance" | .poolPanic => "panic"
+
+def b01 (b : Bool) : String := if b then "1" else "0"
+
+/-- the contract `EvmOk` checked on one oracle answer (tracked accounts only). -/
+def oracleObeysContract (o : Oracle) (m : Msg) (hs : Bool) (gasGiven : Nat) (wIn : W) : Bool :=
+  match o with
+  | .fired gl e _ obs =>
+    gl ≤ gasGiven &&
+    (match e with
+     | none => true
+     | some .insufficientBalance => false   -- the tracer never fires on that path
+     | some _ =>
+       -- (pre-Homestead a creation's code-store-out-of-gas error is not reverted: outside the contract)
+       (m.to.isNone && !hs) ||
+       -- reverted: tracked balances as on entry; nonces as on entry (+1 for the creating sender)
+       (List.range obs.length).all (fun i =>
+         (obs.getD i (0, 0)).1 == lookup wIn.bal i &&
+         (obs.getD i (0, 0)).2 == (if m.to.isNone && i == m.sender then nonceInc (lookup wIn.nonce i) else lookup wIn.nonce i)))
+  | _ => true
+
+structure TxLine where
+  m : Msg
+  orc : Oracle
+
+def parseTxFields (from_ ct nonce check price gas value nz z evm : String) : Option TxLine := do
+  let f ← nat? from_
+  let nonce ← nat? nonce
+  let price ← nat? price
+  let gas ← nat? gas
+  let value ← nat? value
+  let nz ← nat? nz
+  let z ← nat? z
+  let orc ← parseOracle evm
+  let to ← (match ct with | "c" => some none | "t" => some (some 99) | _ => none)
+  pure { m := { sender := f, to := to, nonce := nonce, checkNonce := check == "1", gasPrice := price, gas := gas, value := value, data := mkData nz z }, orc := orc }
+
+/-- Spec judgement of a Go `msg` result that differs from the model. -/
+def specMsg (t : TxLine) (cb : Nat) (hs : Bool) (gp : Nat) (pre : W) (go : String) (modelOk : Bool) : Bool :=
+  match fields go with
+  | ["ok", used, failed, gp', post] =>
+    modelOk &&
+    (match nat? used, nat? gp', parsePairs post, intrinsicGas t.m.data t.m.to.isNone hs with
+     | some used, some gp', some post, some ig =>
+       let pw := preWorld t.m pre
+       let (evS, evC, gl, rf) := (match t.orc with
+         | .fired gl _ rf obs => ((obs.getD t.m.sender (0, 0)).1, (obs.getD cb (0, 0)).1, gl, rf)
+         | .coll => (lookup pw.bal t.m.sender, lookup pw.bal cb, 0, 0)
+         | _ => (lookup pw.bal t.m.sender, lookup pw.bal cb, t.m.gas - ig, 0))
+       specTx t.m cb ig
+         { senderBefore := lookup pre.bal t.m.sender, nonceBefore := lookup pre.nonce t.m.sender, coinbaseBefore := lookup pre.bal cb,
+           senderAfter := (post.getD t.m.sender (0, 0)).1, nonceAfter := (post.getD t.m.sender (0, 0)).2, coinbaseAfter := (post.getD cb (0, 0)).1,
+           evmSender := evS, evmSenderIn := lookup pw.bal t.m.sender, evmCoinbase := evC, evmCoinbaseIn := lookup pw.bal cb,
+           gasUsed := used, failed := failed == "1", gasLeft := gl, refundCounter := rf, gpBefore := gp, gpAfter := gp' }
+     | _, _, _, _ => false)
+  | "err" :: _ => !modelOk
+  | _ => false
+
+def handleMsg (fs : List String) (go : String) : String :=
+  match fs with
+  | [hs, byz, cb, gp, from_, ct, nonce, check, price, gas, value, nz, z, pre, evm] =>
+    match nat? cb, nat? gp, parsePairs pre, parseTxFields from_ ct nonce check price gas value nz z evm with
+    | some cb, some gp, some pre, some t =>
+      let w := mkWorld pre
+      let env := mkEnv (fun _ => t.orc) cb (hs == "1") (byz == "1")
+      let ig := (intrinsicGas t.m.data t.m.to.isNone (hs == "1")).getD 0
+      if !oracleObeysContract t.orc t.m (hs == "1") (t.m.gas - ig) (preWorld t.m w) then "evm-contract-broken\tspec-reject:evm-contract"
+      else
+        match transitionDb env t.m gp w with
+        | .error e =>
+          let m := "err " ++ errName e
+          verdict m go (specMsg t cb (hs == "1") gp w go false) "tx-equations"
+        | .ok r =>
+          let m := "ok " ++ toString r.usedGas ++ " " ++ b01 r.failed ++ " " ++ toString r.gp ++ " " ++ showTracked r.world pre.length
+          verdict m go (specMsg t cb (hs == "1") gp w go true) "tx-equations"
+    | _, _, _, _ => "bad-op\tagree"
+  | _ => "bad-op\tagree"
+
+def showReceipt (r : Receipt) : String :=
+  b01 r.failed ++ "," ++ toString r.cumulativeGasUsed ++ "," ++ toString r.gasUsed ++ "," ++ b01 r.hasRoot ++ "," ++ b01 r.creation
+
+/-- index of the first transaction `applyTransaction` refuses (stepping exactly like `processTxs`). -/
+def firstErr (env : Env Nat) : List Msg → Nat → W → Nat → Nat → Nat
+  | [], _, _, _, i => i
+  | m :: ms, gp, w, used, i =>
+    match applyTransaction env m gp w used with
+    | .error _ => i
+    | .ok a => firstErr env ms a.gp a.world a.usedGas (i + 1)
+
+/-- Spec judgement of a Go `blk` result that differs from the model: validity must agree; receipts must add up below the limit. -/
+def specBlk (gasLimit : Nat) (go : String) (modelErrIdx : Option Nat) : Bool :=
+  match fields go with
+  | ["ok", used, _, recs, _] =>
+    modelErrIdx.isNone &&
+    (match nat? used with
+     | some used =>
+       let rs := (recs.splitOn ";").filterMap (fun r => match r.splitOn "," with
+         | [_, cum, g, _, _] => (do let c ← nat? cum; let g ← nat? g; pure (c, g))
+         | _ => none)
+       let sums := rs.foldl (fun (acc : Nat × Bool) (cg : Nat × Nat) => (acc.1 + cg.2, acc.2 && cg.1 == acc.1 + cg.2)) (0, true)
+       sums.2 && sums.1 == used && used ≤ gasLimit
+     | none => false)
+  | ["err", idx, _] => modelErrIdx == nat? idx && modelErrIdx.isSome
+  | _ => false
+
+def handleBlk (fs : List String) (go : String) : String :=
+  match fs with
+  | hs :: byz :: cb :: gasLimit :: pre :: txs =>
+    let parsed := txs.mapM (fun t => match t.splitOn ":" with
+      | [from_, ct, nonce, price, gas, value, nz, z, evm] => parseTxFields from_ ct nonce "1" price gas value nz z evm
+      | _ => none)
+    match nat? cb, nat? gasLimit, parsePairs pre, parsed with
+    | some cb, some gasLimit, some pre, some ts =>
+      let w := mkWorld pre
+      let orc : Msg → Oracle := fun m =>
+        match ts.find? (fun t => t.m.sender == m.sender && t.m.nonce == m.nonce) with
+        | some t => t.orc
+        | none => .na
+      let env := mkEnv orc cb (hs == "1") (byz == "1")
+      let ms := ts.map (·.m)
+      match process env id id gasLimit ms w with
+      | .error e =>
+        let idx := firstErr env ms gasLimit w 0 0
+        verdict ("err " ++ toString idx ++ " " ++ errName e) go (specBlk gasLimit go (some idx)) "block-validity-or-cumulative-gas"
+      | .ok b =>
+        let m := "ok " ++ toString b.usedGas ++ " " ++ toString b.gp ++ " " ++ ";".intercalate (b.receipts.map showReceipt) ++ " " ++ showTracked b.world pre.length
+        verdict m go (specBlk gasLimit go none) "block-validity-or-cumulative-gas"
+    | _, _, _, _ => "bad-op\tagree"
+  | _ => "bad-op\tagree"
+
+def handleGp (script : String) (go : String) : String :=
+  let steps := script.splitOn ","
+  let rec goSteps (ss : List String) (gp : Nat) (acc : List String) : List String :=
+    match ss with
+    | [] => acc.reverse
+    | s :: rest =>
+      let n := (nat? (strDrop s 1)).getD 0
+      if s.startsWith "a" then
+        match addGas gp n with
+        | none => ("panic" :: acc).reverse
+        | some g => goSteps rest g (toString g :: acc)
+      else
+        match subGas gp n with
+        | none => goSteps rest gp ("limit" :: acc)
+        | some g => goSteps rest g (toString g :: acc)
+  verdict (",".intercalate (goSteps steps 0 [])) go false "gaspool"
+
+def handle (l : String) : String :=
+  let (inp, go) := splitCase l
+  match fields inp with
+  | ["ig", nz, z, c, h] =>
+    match nat? nz, nat? z with
+    | some nz, some z =>
+      let m := match intrinsicGasN nz z (c == "1") (h == "1") with
+        | some g => "ok " ++ toString g
+        | none => "err"
+      verdict m go false "intrinsic-gas-formula"
+    | _, _ => "bad-op\tagree"
+  | ["gp", script] => handleGp script go
+  | "msg" :: rest => handleMsg rest go
+  | "blk" :: rest => handleBlk rest go
+  | _ => "bad-op\tagree"
 
 def main : IO Unit := runLines handle
